@@ -19,7 +19,10 @@ Inductive ctx :=
 | CTopup (k amount r : Z)
 | CReturn (k : Z) (refs : list Z) (chg : Z)
 | CRevPow
-| CRevDpos (interval : Z).
+| CRevDpos (interval : Z)
+| CInactive (k : Z)
+| CActivate (k : Z)
+| CIllegal (k : Z).
 
 Inductive cblock := CBlock (h t : Z) (txs : list ctx).
 
@@ -37,6 +40,9 @@ Definition tx_of (c : ctx) : tx :=
   | CReturn k refs chg => TReturn (n k) (map n refs) chg
   | CRevPow => TRevertPow
   | CRevDpos iv => TRevertDpos iv
+  | CInactive k => TInactive (n k)
+  | CActivate k => TActivate (n k)
+  | CIllegal k => TIllegal (n k)
   end.
 
 Definition block_of (b : cblock) : block :=
@@ -75,13 +81,13 @@ Fixpoint backward (P : params) (rbs : list (Z * list Z)) (st : mstate) : bool :=
   end.
 
 Inductive case :=
-| Trace (id : N) (K M R lockup revert fee cap : Z) (blocks : list cblock) (obs : list (list Z))
+| Trace (id : N) (K M R lockup revert fee cap pe pi : Z) (blocks : list cblock) (obs : list (list Z))
         (rbs : list (Z * list Z)).
 
 Definition check (c : case) : option N :=
   match c with
-  | Trace id K M R lockup revert fee cap blocks obs rbs =>
-      let P := Params (n K) (n M) (n R) lockup revert fee cap in
+  | Trace id K M R lockup revert fee cap pe pi blocks obs rbs =>
+      let P := Params (n K) (n M) (n R) lockup revert fee cap pe pi in
       match forward P blocks obs (init P) with
       | Some st => if backward P rbs st then None else Some id
       | None => Some id
